@@ -530,10 +530,19 @@ func parent(spec Spec) {
 	}
 	merged.Violations = append(merged.Violations, crashes...)
 	if len(merged.Broken) > 0 {
+		// a vacuity guard ("vacuity: ..." from Require) says that the exploration did not reach a situation the check
+		// is about. When violations were found as well, the code under test changed so much that it both broke the
+		// property and never reaches that situation: the violations are the verdict. Alone, it leaves no verdict.
+		onlyVacuity := true
 		for _, b := range merged.Broken {
 			fmt.Fprintln(os.Stderr, "BROKEN:", b)
+			if !strings.HasPrefix(b, "vacuity:") {
+				onlyVacuity = false
+			}
 		}
-		broken = true
+		if !(onlyVacuity && len(merged.Violations) > 0) {
+			broken = true
+		}
 	}
 	if broken {
 		fmt.Fprintf(os.Stderr, "check %s is broken (harness failure); no verdict\n", spec.Prop)
